@@ -175,6 +175,8 @@ def print_assumptions(pid):
             continue
         if cur is None:
             continue
+        if line.strip() in ("Axioms:", "Closed under the global context"):
+            continue
         m = re.match(r"^([A-Za-z_][\w'.]*)\s*:", line)
         if m and not line.startswith(" "):
             res[cur].append(m.group(1))
